@@ -1,4 +1,4 @@
-import DadiVerif.Lemmas.DataDictSnp
+import DadiVerif.Lemmas.DataDictSym
 /-!
 # C13 — genotype data become the spectrum and statistics that direct counting gives
 
@@ -144,6 +144,62 @@ theorem C13_swap_alleles (proj : List ℕ) (s : Snp) (hp : s.polarized = true) (
   simp only [contribAt, hp, hp', hsucc, hder, hn]
 
 example : (⟨0, 1, 0, 2, 1, 4, some 4, [(3, 5)]⟩ : Snp).polarized = true ∧ (1 : ℕ) ≠ 4 := by decide
+
+/-- **folded when unpolarised**: for an unpolarised SNP (no usable outgroup allele) the folded contribution does not
+    depend on which of the two alleles is written first — counting the other allele mirrors the projection rows
+    (`projWeight_mirror`: w(m,n,n−i,m−j) = w(m,n,i,j)) and folding identifies an entry with its mirror image -/
+theorem C13_unpolarised_swap (proj : List ℕ) (s : Snp) (hp : s.polarized = false) (hlen : s.calls.length = proj.length)
+    (idx : List ℕ) (hidx : InBox idx (shapeOf proj)) :
+    snpSpecAt false proj { s with a1 := s.a2, a2 := s.a1, calls := s.calls.map Prod.swap } idx
+      = snpSpecAt false proj s idx := by
+  set s' : Snp := { s with a1 := s.a2, a2 := s.a1, calls := s.calls.map Prod.swap } with hs'
+  have hp' : s'.polarized = false := by
+    have : s'.polarized = s.polarized := by
+      simp only [hs', Snp.polarized, polarizedTest, Bool.or_comm]
+    rw [this, hp]
+  have hsucc : s'.successful = s.successful := by
+    simp [hs', Snp.successful, successfulCalls, Function.comp_def, Nat.add_comm]
+  have hd := (C13_polarise s).2.2.1 hp
+  have hd' := (C13_polarise s').2.2.1 hp'
+  have key : ∀ l : List (ℕ × ℕ),
+      l.map (fun c => c.1) = complCalls (l.map fun c => c.1 + c.2) (l.map fun c => c.2) := by
+    intro l
+    induction l with
+    | nil => rfl
+    | cons c t ih =>
+      simp only [List.map_cons, complCalls, ← ih]
+      congr 1
+      omega
+  have hcompl : s'.derived = complCalls s.successful s.derived := by
+    rw [hd', hd, (C13_polarise s).2.2.2]
+    simp only [hs', List.map_map]
+    exact key s.calls
+  have hn : s'.nseg = s.nseg := rfl
+  -- the swapped SNP's raw contribution is the mirror image of the original one
+  have hraw : ∀ i, InBox i (shapeOf proj) → contribAt false proj s' (mirror proj i) = contribAt false proj s i := by
+    intro i hi
+    simp only [contribAt, hn, hp, hp', hsucc, hcompl]
+    split_ifs
+    · rfl
+    · rfl
+    · exact prodW_mirror proj s.successful s.derived i (by rw [successful_length, hlen])
+        (by rw [derived_length, hlen]) (derived_le_successful s) hi
+  have hm := mirror_inBox hidx
+  have e1 : contribAt false proj s' idx = contribAt false proj s (mirror proj idx) := by
+    have := hraw (mirror proj idx) hm
+    rwa [mirror_mirror hidx] at this
+  have e2 : contribAt false proj s' (mirror proj idx) = contribAt false proj s idx := hraw idx hidx
+  simp only [snpSpecAt, Bool.false_eq_true, if_false, foldAt, e1, e2]
+  split_ifs <;> ring
+
+example : (⟨0, 1, 0, 2, 1, 4, some 3, [(3, 5)]⟩ : Snp).polarized = false ∧ InBox [2] (shapeOf [4]) := by
+  refine ⟨by decide, ?_⟩
+  simp [InBox, shapeOf]
+
+/-- with pairwise distinct keys (`CHROM_POS[.info]`) the dictionary is the list of kept lines; a repeated key replaces the
+    earlier entry (`ddInsert`) -/
+theorem C13_dict_distinct (snps : List Snp) (hk : keysDistinct snps) : mkDict snps = snps :=
+  mkDict_distinct snps hk
 
 /-! ## VCF lines -/
 
@@ -327,6 +383,42 @@ theorem C13_watterson (n : ℕ) (cols : List (List Bool)) (hlen : ∀ c ∈ cols
     wattersonOf n (specOfCols n cols) = wattersonDirect n cols := by
   unfold wattersonOf wattersonDirect
   rw [C13_S n cols hlen]
+
+/-- θ_L = Σ over segregating columns of the derived count / (n−1) -/
+theorem C13_thetaL (n : ℕ) (cols : List (List Bool)) (hlen : ∀ c ∈ cols, c.length = n) :
+    thetaLOf n (specOfCols n cols) = thetaLDirect n cols := by
+  have h := sumRange_full_mul n cols hlen (fun i => if 0 < i ∧ i < n then (i : ℚ) else 0)
+  unfold thetaLOf thetaLDirect
+  congr 1
+  have e2 : sumMap cols (fun c => if isSeg c = true then (countTrue c : ℚ) else 0)
+      = sumMap cols (fun c => if 0 < countTrue c ∧ countTrue c < n then (countTrue c : ℚ) else 0) := by
+    apply sumMap_congr
+    intro c hc
+    have hl := hlen c hc
+    have := isSeg_iff c
+    rw [hl] at this
+    by_cases hs : isSeg c = true
+    · simp [hs, this.mp hs]
+    · have : ¬ (0 < countTrue c ∧ countTrue c < n) := fun x => hs (this.mpr x)
+      simp [hs, this]
+  rw [e2, ← h]
+  cases n with
+  | zero => simp [sumRange]
+  | succ m =>
+    set f : ℕ → ℚ := specOfCols (m + 1) cols with hf
+    set w : ℕ → ℚ := fun i => if 0 < i ∧ i < m + 1 then (i : ℚ) else 0 with hw
+    have hw0 : w 0 = 0 := by simp [hw]
+    have hwn : w (m + 1) = 0 := by simp [hw]
+    have hwk : ∀ k, k < m → w (k + 1) = ((k + 1 : ℕ) : ℚ) := by
+      intro k hk
+      have c1 : 0 < k + 1 ∧ k + 1 < m + 1 := by omega
+      simp only [hw, c1, and_self, if_true]
+    show sumRange (m + 1 - 1) (fun k => ((k + 1 : ℕ) : ℚ) * f (k + 1)) = sumRange (m + 1 + 1) (fun i => w i * f i)
+    rw [Nat.add_sub_cancel, sumRange_eq, sumRange_eq, Finset.sum_range_succ, Finset.sum_range_succ', hw0, hwn]
+    simp only [zero_mul, add_zero]
+    apply Finset.sum_congr rfl
+    intro k hk
+    rw [hwk k (Finset.mem_range.mp hk)]
 
 /-- Tajima's D from the spectrum = Tajima's D from the counted S and π̂: equal numerators, equal argument of the
     square root (`sqrt` itself is a parameter: `sqrtC` is whatever the float library returns for that argument) -/
